@@ -21,7 +21,7 @@ ASSUMPTIONS = ['right prisms (top/bottom planes normal to the axis)']
 
 def plan(tier):
     q = tier == 'quick'
-    return [('monitor', 200 if q else 3000, {}), ('model', 40 if q else 600, {}), ('hextrav', 300 if q else 6000, {})]
+    return [('monitor', 450 if q else 4000, {}), ('model', 60 if q else 600, {}), ('hextrav', 300 if q else 6000, {})]
 
 
 def search_plan(tier, disagreements):
@@ -160,7 +160,7 @@ def run_case(stream, seed, ctx, params):
     d = U.build_universe_deck(rng, depth=rng.randint(1, 2), macro_p=0.0, tr_p=0.0, fill_tr_p=0.4, trcl_p=0.2,
                               reuse_p=0.3, lattice_p=0.7, lat_kind=kind, lat_tr_p=0.25, lat_trcl_p=0.2)
     args = random_options(rng)
-    r = run_deck(ctx, stream, d, args, rng, npts=params.get('npts', 150), check_model=(stream == 'model'))
+    r = run_deck(ctx, stream, d, args, rng, npts=params.get('npts', 220), check_model=(stream == 'model'))
     if r is not None and not any(c.lat == 2 and len(c.fill['us']) > 1 for c in d.cells):
         r['nontrivial_hashes'] = []
     return r
